@@ -668,6 +668,33 @@ theorem cacheErr_frame (st : St) (q : Query) (e : Err) :
   · split <;> simp
   · simp
 
+/-- the records an error outcome carries (SOA, authority records, referral NS + glue) -/
+def errRecords : Err → List Record
+  | .noRecords _ soa ns auths _ => soa.toList ++ auths ++ ns.flatMap fun e => e.1 :: e.2
+  | _ => []
+
+/-- what `strip_out_of_bailiwick` leaves is inside the zone -/
+theorem stripErr_in_bailiwick (zone : Name) (e : Err) :
+    ∀ x ∈ errRecords (stripErr zone e), isSubzone zone x.name = true := by
+  cases e with
+  | noRecords nx soa ns auths t =>
+    intro x hx
+    simp only [stripErr, errRecords, List.mem_append, Option.mem_toList, List.mem_flatMap,
+      List.mem_map, List.mem_filter, List.mem_cons] at hx
+    rcases hx with (hx | hx) | ⟨e', ⟨e0, ⟨_, he0⟩, rfl⟩, hx⟩
+    · cases soa with
+      | none => simp at hx
+      | some s =>
+        by_cases hs : isSubzone zone s.name = true
+        · simp only [hs, Bool.not_true, Bool.false_eq_true, ↓reduceIte, Option.some.injEq] at hx
+          subst hx; exact hs
+        · simp [hs] at hx
+    · exact (mem_bailiwick hx).2
+    · rcases hx with rfl | hx
+      · exact he0
+      · exact (mem_bailiwick hx).2
+  | _ => intro x hx; simp [stripErr, errRecords] at hx
+
 /-- everything `lookup` does to the state and what it returns -/
 theorem lookup_frame (cfg : Config) (net : Net) (q : Query) (zone : Name) (pool : Pool) (st : St) :
     (lookup cfg net q zone pool st).1.nscache = st.nscache ∧
@@ -677,12 +704,14 @@ theorem lookup_frame (cfg : Config) (net : Net) (q : Query) (zone : Name) (pool 
     (∀ e ∈ (lookup cfg net q zone pool st).1.log, e ∈ st.log ∨ (e.1 ∈ pool.ips ∧ e.2 = q)) ∧
     (∀ e ∈ st.log, e ∈ (lookup cfg net q zone pool st).1.log) ∧
     (∀ e ∈ (lookup cfg net q zone pool st).1.rcache, e ∈ st.rcache ∨
-      (∃ e0, e = (q, .error e0)) ∨
+      (∃ e0, e = (q, .error e0) ∧ ∀ x ∈ errRecords e0, isSubzone zone x.name = true) ∨
       (∃ r, e = (q, .ok r) ∧ (∀ x ∈ r.all, isSubzone zone x.name = true) ∧
         ∃ ip ∈ pool.ips, ∃ r0, net ip q = .msg r0 ∧ Sub r r0)) ∧
     (∀ r, (lookup cfg net q zone pool st).2 = .ok r →
       (∀ x ∈ r.all, isSubzone zone x.name = true) ∧
-        ∃ ip ∈ pool.ips, ∃ r0, net ip q = .msg r0 ∧ Sub r r0) := by
+        ∃ ip ∈ pool.ips, ∃ r0, net ip q = .msg r0 ∧ Sub r r0) ∧
+    (∀ e, (lookup cfg net q zone pool st).2 = .error e →
+      ∀ x ∈ errRecords e, isSubzone zone x.name = true) := by
   have hp := poolLookup_frame cfg net pool q { st with asked := (pool.zone, zone, q) :: st.asked }
   unfold lookup
   dsimp only
@@ -690,29 +719,31 @@ theorem lookup_frame (cfg : Config) (net : Net) (q : Query) (zone : Name) (pool 
   · rename_i st1 e heq
     rw [heq] at hp
     obtain ⟨h1, h2, h3, h4, h5, h6, h7, _⟩ := hp
-    obtain ⟨f1, f2, f3, f4, f5⟩ := cacheErr_frame st1 q e
-    refine ⟨by rw [f1, h2], by rw [f3, h4], by rw [f4, h5], by rw [f2, h3], ?_, ?_, ?_, ?_⟩
+    obtain ⟨f1, f2, f3, f4, f5⟩ := cacheErr_frame st1 q (stripErr zone e)
+    refine ⟨by rw [f1, h2], by rw [f3, h4], by rw [f4, h5], by rw [f2, h3], ?_, ?_, ?_, ?_, ?_⟩
     · intro x hx; rw [f5] at hx; exact h6 x hx
     · intro x hx; rw [f5]; exact h7 x hx
     · intro x hx
       rcases cacheErr_mem hx with h | h
-      · right; left; exact ⟨e, h⟩
+      · right; left; exact ⟨_, h, stripErr_in_bailiwick zone e⟩
       · left; rw [h1] at h; exact h
     · intro r hr; cases hr
+    · intro e' he'; cases he'; exact stripErr_in_bailiwick zone e
   · rename_i st1 r heq
     rw [heq] at hp
     obtain ⟨h1, h2, h3, h4, h5, h6, h7, h8⟩ := hp
     obtain ⟨ip, hip, r0, hn, hsub⟩ := h8 r rfl
     split
     · rename_i hfil
-      refine ⟨h2, h4, h5, h3, h6, h7, ?_, ?_⟩
+      refine ⟨h2, h4, h5, h3, h6, h7, ?_, ?_, ?_⟩
       · intro x hx; left; rw [h1] at hx; exact hx
       · intro r hr; cases hr
+      · intro e' he'; cases he'; intro x hx; simp [errRecords] at hx
     · rename_i r' hfil
       obtain ⟨f1, f2, f3, f4, f5⟩ := cacheOk_frame st1 q r'
       have hb := filter_in_bailiwick hfil
       have hs : Sub r' r0 := (filterResponse_sub hfil).trans hsub
-      refine ⟨by rw [f1, h2], by rw [f3, h4], by rw [f4, h5], by rw [f2, h3], ?_, ?_, ?_, ?_⟩
+      refine ⟨by rw [f1, h2], by rw [f3, h4], by rw [f4, h5], by rw [f2, h3], ?_, ?_, ?_, ?_, ?_⟩
       · intro x hx; rw [f5] at hx; exact h6 x hx
       · intro x hx; rw [f5]; exact h7 x hx
       · intro x hx
@@ -722,6 +753,7 @@ theorem lookup_frame (cfg : Config) (net : Net) (q : Query) (zone : Name) (pool 
       · intro r hr
         cases hr
         exact ⟨hb, ip, hip, r0, hn, hs⟩
+      · intro e' he'; cases he'
 
 /-! ## 4. `cached_in_bailiwick` -/
 
@@ -750,7 +782,7 @@ theorem cacheClean_stable (cfg : Config) (net : Net) : Stable cfg net CacheClean
     intro st pool q zone h _ _ q' r hm
     obtain ⟨_, _, _, h4, _, _, h7, _⟩ := lookup_frame cfg net q zone pool st
     rw [h4]
-    rcases h7 _ hm with h' | ⟨e0, h'⟩ | ⟨r', h', hb, _⟩
+    rcases h7 _ hm with h' | ⟨e0, h', _⟩ | ⟨r', h', hb, _⟩
     · obtain ⟨a, ha, hq, hx⟩ := h q' r h'
       exact ⟨a, List.mem_cons_of_mem _ ha, hq, hx⟩
     · cases h'
@@ -884,7 +916,7 @@ theorem cacheBound_stable (cfg : Config) {net : Net} {N : Nat} (hN : NetBound ne
   lookup := by
     intro st pool q zone h _ _ q' r hm
     obtain ⟨_, _, _, _, _, _, h7, _⟩ := lookup_frame cfg net q zone pool st
-    rcases h7 _ hm with h' | ⟨e0, h'⟩ | ⟨r', h', _, ip, _, r0, hn, hs⟩
+    rcases h7 _ hm with h' | ⟨e0, h', _⟩ | ⟨r', h', _, ip, _, r0, hn, hs⟩
     · exact h q' r h'
     · cases h'
     · cases h'
@@ -1041,7 +1073,7 @@ theorem nsQuery_cost (hN : NetBound net N) (zone : Name) (pool : Pool) (st : St)
   · obtain ⟨_, _, h3, _, _, _, _, h8⟩ := lookup_frame cfg net ⟨zone, T_NS⟩ (base zone) pool st
     refine ⟨by omega, ?_⟩
     intro r hr
-    obtain ⟨_, ip, _, r0, hn, hs⟩ := h8 r hr
+    obtain ⟨_, ip, _, r0, hn, hs⟩ := h8.1 r hr
     exact Nat.le_trans (nsCount_sub hs) (hN ip _ r0 hn)
 
 theorem buildPool_cost (hN : NetBound net N) {rec : NsRec} {c : Nat} (hrec : NsCost N rec c)
@@ -1500,7 +1532,7 @@ theorem answerQuery_ret (q : Query) (pool : Pool) (st : St) (h : CacheClean st) 
   have key : ∀ r, (lookup cfg net q pool.zone pool st).2 = .ok r →
       ∀ x ∈ r.all, Prov (lookup cfg net q pool.zone pool st).1 x := by
     intro r hr x hx
-    refine ⟨(pool.zone, pool.zone, q), ?_, (hl.2.2.2.2.2.2.2 r hr).1 x hx⟩
+    refine ⟨(pool.zone, pool.zone, q), ?_, (hl.2.2.2.2.2.2.2.1 r hr).1 x hx⟩
     rw [hl.2.2.2.1]; simp
   unfold answerQuery at hr ⊢
   split at hr
@@ -1733,59 +1765,111 @@ example : (resolve { cfg 24 with recursionLimit := 5 } cnameNet ⟨nA, T_A⟩ St
   decide +kernel
 end Ex
 
-/-! ## 9. the two places where the code does not meet the property (findings)
+/-! ## 9. negative responses, and the place where the code does not meet the property
 
-### 9a. negative responses bypass the bailiwick filter  (`C19.NegativeResponseUnfiltered`)
+### 9a. negative responses go through the bailiwick rule too  (finding fixed by 030930c)
 
-Full-strength statement (FALSE for the code as it is):
-  `∀ net q zone pool st e, (lookup cfg net q zone pool st).2 = .error e →
-      every record carried by `e` (SOA, authority records, referral NS + glue) is in the bailiwick of `zone``
-and the same for the entry `lookup` stores in the response cache.  `lookup` returns (and caches)
-the `NoRecordsFound` error of the pool untouched.  Proved instead: the payload of the error is
-exactly the authority/additional section of the server's response, so the statement holds for
-every response whose authority and additional sections are inside the zone
-(`¬ negativeWithForeignRecords zone q r`). -/
+Before the fix `lookup` returned and cached the `NoRecordsFound` outcome of the pool untouched
+(class `C19.NegativeResponseUnfiltered`); the model then only satisfied `negative_payload_partial`
+(kept below: the payload is exactly the authority/additional section of the server's response).
+With `strip_out_of_bailiwick` the statement holds at full strength. -/
 
-def errRecords : Err → List Record
-  | .noRecords _ soa ns auths _ => soa.toList ++ auths ++ ns.flatMap fun e => e.1 :: e.2
-  | _ => []
-
-theorem negative_payload_partial {zone : Name} {q : Query} {r : Response} {e : Err}
-    (hclean : negativeWithForeignRecords zone q r = false) (h : fromResponse q r = .error e) :
-    ∀ x ∈ errRecords e, isSubzone zone x.name = true := by
-  have hall : ∀ x ∈ r.authorities ++ r.additionals, isSubzone zone x.name = true ∨
-      ¬ (∃ a b c d t, e = .noRecords a b c d t) := by
-    intro x hx
-    unfold negativeWithForeignRecords at hclean
-    rw [h] at hclean
-    cases e with
-    | noRecords a b c d t =>
-      left
-      simp only [Bool.true_and, List.any_eq_false, Bool.not_eq_true', Bool.not_eq_false] at hclean
-      exact hclean x hx
-    | _ => right; rintro ⟨a, b, c, d, t, he⟩; cases he
+/-- the payload of the error `from_response` makes of a response is part of the authority and
+additional sections of that response -/
+theorem fromResponse_payload_sub {q : Query} {r : Response} {e : Err}
+    (h : fromResponse q r = .error e) : ∀ x ∈ errRecords e, x ∈ r.authorities ++ r.additionals := by
   unfold fromResponse at h
   split at h
   · cases h; intro x hx; simp [errRecords] at hx
   · split at h
     · cases h
       intro x hx
-      have hsub : x ∈ r.authorities ++ r.additionals := by
-        simp only [errRecords, List.mem_append, Option.mem_toList, List.mem_flatMap, List.mem_map,
-          List.mem_filter, List.mem_cons] at hx
-        rcases hx with (hx | hx) | ⟨e', ⟨ns, ⟨hns, _⟩, rfl⟩, hx⟩
-        · exact List.mem_append_left _ (List.mem_of_find?_eq_some hx)
-        · exact List.mem_append_left _ hx
-        · rcases hx with rfl | hx
-          · exact List.mem_append_left _ hns
-          · unfold glueFor at hx
-            split at hx
-            · exact List.mem_append_right _ (List.mem_filter.1 hx).1
-            · cases hx
-      rcases hall x hsub with h' | h'
-      · exact h'
-      · exact absurd ⟨_, _, _, _, _, rfl⟩ h'
+      simp only [errRecords, List.mem_append, Option.mem_toList, List.mem_flatMap, List.mem_map,
+        List.mem_filter, List.mem_cons] at hx
+      rcases hx with (hx | hx) | ⟨e', ⟨ns, ⟨hns, _⟩, rfl⟩, hx⟩
+      · exact List.mem_append_left _ (List.mem_of_find?_eq_some hx)
+      · exact List.mem_append_left _ hx
+      · rcases hx with rfl | hx
+        · exact List.mem_append_left _ hns
+        · unfold glueFor at hx
+          split at hx
+          · exact List.mem_append_right _ (List.mem_filter.1 hx).1
+          · cases hx
     · cases h
+
+theorem isNoRecords_of_payload {e : Err} {x : Record} (hx : x ∈ errRecords e) :
+    ∃ a b c d t, e = .noRecords a b c d t := by
+  cases e with
+  | noRecords a b c d t => exact ⟨a, b, c, d, t, rfl⟩
+  | _ => simp [errRecords] at hx
+
+theorem negative_payload_partial {zone : Name} {q : Query} {r : Response} {e : Err}
+    (hclean : negativeWithForeignRecords zone q r = false) (h : fromResponse q r = .error e) :
+    ∀ x ∈ errRecords e, isSubzone zone x.name = true := by
+  intro x hx
+  obtain ⟨a, b, c, d, t, rfl⟩ := isNoRecords_of_payload hx
+  have hsub := fromResponse_payload_sub h x hx
+  unfold negativeWithForeignRecords at hclean
+  rw [h] at hclean
+  simp only [Bool.true_and, List.any_eq_false, Bool.not_eq_true', Bool.not_eq_false] at hclean
+  exact hclean x hsub
+
+/-- **`negative_payload_in_bailiwick`**: whatever the network answers, every record carried by an
+error `lookup` returns (SOA, authority records, referral NS + glue) is inside the zone handed to
+the filter. -/
+theorem negative_payload_in_bailiwick (cfg : Config) (net : Net) (q : Query) (zone : Name)
+    (pool : Pool) (st : St) (e : Err) (h : (lookup cfg net q zone pool st).2 = .error e) :
+    ∀ x ∈ errRecords e, isSubzone zone x.name = true :=
+  (lookup_frame cfg net q zone pool st).2.2.2.2.2.2.2.2 e h
+
+/-- every negative entry of the response cache went through the bailiwick rule of a recorded
+`lookup` call for that query -/
+def CacheCleanNeg (st : St) : Prop :=
+  ∀ q e, (q, Except.error e) ∈ st.rcache →
+    ∃ a ∈ st.asked, a.2.2 = q ∧ ∀ x ∈ errRecords e, isSubzone a.2.1 x.name = true
+
+theorem cacheCleanNeg_stable (cfg : Config) (net : Net) :
+    Stable cfg net CacheCleanNeg (fun _ => True) (fun _ _ => True) (fun _ _ => True)
+      (fun _ => True) where
+  root := trivial
+  cached := fun _ _ _ _ _ => trivial
+  respCached := fun _ _ _ _ _ => trivial
+  respLookup := fun _ _ _ _ _ _ => trivial
+  fresh := fun _ _ _ _ _ _ _ _ => trivial
+  rezone := fun _ _ _ => trivial
+  poolLookup := by
+    intro st pool q h _ q' e hm
+    obtain ⟨h1, _, h3, _⟩ := poolLookup_frame cfg net pool q st
+    rw [h1] at hm
+    rw [h3]
+    exact h q' e hm
+  lookup := by
+    intro st pool q zone h _ _ q' e hm
+    obtain ⟨_, _, _, h4, _, _, h7, _⟩ := lookup_frame cfg net q zone pool st
+    rw [h4]
+    rcases h7 _ hm with h' | ⟨e0, h', hb⟩ | ⟨r', h', _⟩
+    · obtain ⟨a, ha, hq, hx⟩ := h q' e h'
+      exact ⟨a, List.mem_cons_of_mem _ ha, hq, hx⟩
+    · cases h'
+      exact ⟨(pool.zone, zone, q), by simp, rfl, hb⟩
+    · cases h'
+  nsPut := fun st z p h _ => h
+  askSelf := fun _ _ => trivial
+  fitRoot := fun _ => trivial
+  fitHead := fun _ _ _ _ => trivial
+  fitTail := fun _ _ _ _ => trivial
+  fitCached := fun _ _ _ _ _ _ _ _ => trivial
+  fitFresh := fun _ _ _ _ _ => trivial
+  cnames := fun st n h => h
+
+/-- **`negative_cached_in_bailiwick`**: a whole resolution over any network leaves only negative
+cache entries whose records passed the bailiwick rule. -/
+theorem negative_cached_in_bailiwick (cfg : Config) (net : Net) (q : Query) (st : St)
+    (h : CacheCleanNeg st) : CacheCleanNeg (resolve cfg net q st).1 :=
+  resolve_stable (cacheCleanNeg_stable cfg net) q st h
+
+theorem cacheCleanNeg_empty : CacheCleanNeg St.empty := by
+  intro q e h; cases h
 
 namespace Ex
 /-- the `a.` server answers `n.a. AAAA` with NODATA and an authority section delegating `b.` -/
@@ -1793,19 +1877,66 @@ def negNet : Net := fun _ _ =>
   .msg { rcode := 0, aa := true, answers := [], authorities := [⟨nB, 300, .ns nNA⟩, ⟨nB, 300, .soa 300⟩],
          additionals := [] }
 
-/-- counter-example (replay `corpus/C19/negative-answer-with-foreign-authority.case`): the error
-`lookup` returns for zone `a.` carries — and the response cache keeps — records owned by `b.` -/
+/-- regression example (replay `corpus/C19/negative-answer-with-foreign-authority.case`, the
+counter-example before 030930c): the response has the historic shape, and the error `lookup`
+returns for zone `a.` — and the response cache — carry none of the records owned by `b.` -/
 example :
     let res := lookup (cfg 24) negNet ⟨nNA, T_AAAA⟩ nA ⟨[rootIp], nA⟩ St.empty
     (match res.2 with
-      | .error e => (errRecords e).any fun x => !isSubzone nA x.name
+      | .error e => (errRecords e).isEmpty
       | .ok _ => false) = true ∧
-    (match rcGet res.1.rcache ⟨nNA, T_AAAA⟩ with
-      | some (.error e) => (errRecords e).any fun x => !isSubzone nA x.name
-      | _ => false) = true ∧
+    (rcGet res.1.rcache ⟨nNA, T_AAAA⟩).isNone = true ∧
     negativeWithForeignRecords nA ⟨nNA, T_AAAA⟩
       { rcode := 0, aa := true, answers := [],
         authorities := [⟨nB, 300, .ns nNA⟩, ⟨nB, 300, .soa 300⟩], additionals := [] } = true := by
+  decide +kernel
+end Ex
+
+/-! ### 9a'. … but negative responses still skip the pool's *answer* filter
+(`C19.NegativeResponseAnswerFilterSkipped`, open)
+
+Full-strength statement (FALSE for the code as it is):
+  `∀ net pool q st e, (poolLookup cfg net pool q st).2 = .error e →
+      every address record carried by `e` passes `cfg.answerFilter``
+(and hence the same for `lookup`, the response cache and the error `resolve` returns).
+`NameServerPool::send` applies the answer filter after `lookup.await?`, i.e. to `Ok` responses only;
+`strip_out_of_bailiwick` removes only out-of-bailiwick records.  Proved instead: the payload is
+part of the response's authority/additional sections, so the statement holds for every negative
+response without a denied address there (`¬ negativeWithDeniedAddress`). -/
+
+theorem negative_answers_partial {f : Acs} {q : Query} {r : Response} {e : Err}
+    (hclean : negativeWithDeniedAddress f q r = false) (h : fromResponse q r = .error e) :
+    ∀ x ∈ errRecords e, addrAllowed f x = true := by
+  intro x hx
+  obtain ⟨a, b, c, d, t, rfl⟩ := isNoRecords_of_payload hx
+  have hsub := fromResponse_payload_sub h x hx
+  unfold negativeWithDeniedAddress at hclean
+  rw [h] at hclean
+  simp only [Bool.true_and, List.any_eq_false, Bool.not_eq_true', Bool.not_eq_false] at hclean
+  exact hclean x hsub
+
+namespace Ex
+/-- the `a.` server answers everything with NXDOMAIN-free NODATA carrying `w.a. A 666` in the
+authority section; the answer filter denies 666 -/
+def deniedNet : Net := fun _ _ =>
+  .msg { rcode := 0, aa := true, answers := [],
+         authorities := [⟨nA, 300, .soa 300⟩, ⟨nWA, 300, .a 666⟩], additionals := [] }
+
+def cfgDeny : Config := { cfg 24 with answerFilter := ⟨[], [⟨false, 666, 32⟩]⟩ }
+
+/-- counter-example (replay `corpus/C19/negative-answer-with-denied-address.case`): the denied
+address, owned by a name inside the zone, is in the error `lookup` returns and in the cache -/
+example :
+    let res := lookup cfgDeny deniedNet ⟨nNA, T_AAAA⟩ nA ⟨[rootIp], nA⟩ St.empty
+    (match res.2 with
+      | .error e => (errRecords e).any fun x => !addrAllowed cfgDeny.answerFilter x
+      | .ok _ => false) = true ∧
+    (match rcGet res.1.rcache ⟨nNA, T_AAAA⟩ with
+      | some (.error e) => (errRecords e).any fun x => !addrAllowed cfgDeny.answerFilter x
+      | _ => false) = true ∧
+    negativeWithDeniedAddress cfgDeny.answerFilter ⟨nNA, T_AAAA⟩
+      { rcode := 0, aa := true, answers := [],
+        authorities := [⟨nA, 300, .soa 300⟩, ⟨nWA, 300, .a 666⟩], additionals := [] } = true := by
   decide +kernel
 end Ex
 
@@ -2265,7 +2396,7 @@ theorem nsQuery_in_bailiwick (cfg : Config) (net : Net) (zone : Name) (pool : Po
     ∀ x ∈ r.all, isSubzone (base zone) x.name = true := by
   unfold nsQuery at h
   rw [hmiss] at h
-  exact ((lookup_frame cfg net ⟨zone, T_NS⟩ (base zone) pool st).2.2.2.2.2.2.2 r h).1
+  exact ((lookup_frame cfg net ⟨zone, T_NS⟩ (base zone) pool st).2.2.2.2.2.2.2.1 r h).1
 
 end origin
 
@@ -2550,7 +2681,7 @@ theorem lookup_allowed (q : Query) (zone : Name) (pool : Pool) (st : St) :
     refine ⟨?_, fun r hr => by cases hr⟩
     intro x hx
     rcases cacheErr_mem hx with h | h
-    · right; left; exact ⟨e, h⟩
+    · right; left; exact ⟨_, h⟩
     · left; rw [hf.1] at h; exact h
   · rename_i st1 r heq
     rw [heq] at hp hf
@@ -3004,7 +3135,7 @@ theorem lookup_len (q : Query) (zone : Name) (pool : Pool) (st : St) :
   split
   · rename_i st1 e heq
     rw [heq] at this
-    rw [(cacheErr_frame st1 q e).2.2.2.2]
+    rw [(cacheErr_frame st1 q (stripErr zone e)).2.2.2.2]
     exact this
   · rename_i st1 r heq
     rw [heq] at this
@@ -3029,7 +3160,7 @@ theorem sendInv_stable (cfg : Config) {net : Net} {N R : Nat} (hN : NetBound net
     exact ⟨h.1 k r hk, h.2.1 k r hk⟩
   respLookup := by
     intro st pool q zone r hr
-    obtain ⟨_, ip, _, r0, hn, hs⟩ := (lookup_frame cfg net q zone pool st).2.2.2.2.2.2.2 r hr
+    obtain ⟨_, ip, _, r0, hn, hs⟩ := (lookup_frame cfg net q zone pool st).2.2.2.2.2.2.2.1 r hr
     exact ⟨Nat.le_trans (nsCount_sub hs) (hN ip q r0 hn),
       Nat.le_trans hs.all.length_le (hR ip q r0 hn)⟩
   fresh := by
@@ -3053,12 +3184,12 @@ theorem sendInv_stable (cfg : Config) {net : Net} {N R : Nat} (hN : NetBound net
     have hl := lookup_len (cfg := cfg) (net := net) q zone pool st
     refine ⟨?_, ?_, by rw [h1]; exact h.2.2.1, ?_⟩
     · intro q' r hm
-      rcases h7 _ hm with h' | ⟨e0, h'⟩ | ⟨r', h', _, ip, _, r0, hn, hs⟩
+      rcases h7 _ hm with h' | ⟨e0, h', _⟩ | ⟨r', h', _, ip, _, r0, hn, hs⟩
       · exact h.1 q' r h'
       · cases h'
       · cases h'; exact Nat.le_trans (nsCount_sub hs) (hN ip q r0 hn)
     · intro q' r hm
-      rcases h7 _ hm with h' | ⟨e0, h'⟩ | ⟨r', h', _, ip, _, r0, hn, hs⟩
+      rcases h7 _ hm with h' | ⟨e0, h', _⟩ | ⟨r', h', _, ip, _, r0, hn, hs⟩
       · exact h.2.1 q' r h'
       · cases h'
       · cases h'; exact Nat.le_trans hs.all.length_le (hR ip q r0 hn)
@@ -3097,6 +3228,242 @@ theorem sends_bounded (cfg : Config) {net : Net} {N R : Nat} (hN : NetBound net 
 
 end sends
 
+/-! ## 17. `returned_error_in_bailiwick`: the records carried by an error `resolve` returns -/
+
+section returnedErr
+variable {cfg : Config} {net : Net}
+
+theorem provNeg_of_clean {st : St} (h : CacheCleanNeg st) {q : Query} {e : Err}
+    (hg : rcGet st.rcache q = some (.error e)) : ∀ x ∈ errRecords e, Prov st x := by
+  obtain ⟨k, hk⟩ := rcGet_mem hg
+  obtain ⟨a, ha, _, hx⟩ := h k e hk
+  exact fun x hxr => ⟨a, ha, hx x hxr⟩
+
+theorem lookup_err_prov (q : Query) (zone : Name) (pool : Pool) (st : St) (e : Err)
+    (h : (lookup cfg net q zone pool st).2 = .error e) :
+    ∀ x ∈ errRecords e, Prov (lookup cfg net q zone pool st).1 x := by
+  have hl := lookup_frame cfg net q zone pool st
+  intro x hx
+  refine ⟨(pool.zone, zone, q), ?_, hl.2.2.2.2.2.2.2.2 e h x hx⟩
+  rw [hl.2.2.2.1]; simp
+
+theorem nsQuery_err (zone : Name) (pool : Pool) (st : St) (h : CacheCleanNeg st) (e : Err)
+    (he : (nsQuery cfg net zone pool st).2 = .error e) :
+    ∀ x ∈ errRecords e, Prov (nsQuery cfg net zone pool st).1 x := by
+  unfold nsQuery at he ⊢
+  split at he
+  · rename_i v hv
+    dsimp only at he
+    subst he
+    exact provNeg_of_clean h hv
+  · exact lookup_err_prov _ _ _ _ e he
+
+theorem no_records_limit : ∀ x, x ∉ errRecords Err.limit := by intro x hx; simp [errRecords] at hx
+
+/-- the error of one iteration is the error of its NS query (or the depth limit); `buildPool`
+and the recursive calls swallow their errors -/
+theorem nsStep_err (rec : NsRec) (zone : Name) (depth : Nat) (pool : Pool) (st : St)
+    (h : CacheCleanNeg st) (st' : St) (e : Err)
+    (he : nsStep cfg net rec zone depth pool st = (st', .fail e)) :
+    ∀ x ∈ errRecords e, Prov st' x := by
+  unfold nsStep at he
+  split at he
+  · cases he
+  · split at he
+    · cases he; intro x hx; exact absurd hx (no_records_limit x)
+    · have hq := nsQuery_err (cfg := cfg) (net := net) zone pool st h
+      split at he
+      · rename_i st1 e1 heq
+        rw [heq] at hq
+        split at he
+        · cases he; exact hq e rfl
+        · cases he
+      · split at he
+        · cases he
+        · split at he; cases he
+
+theorem nsLoop_err {rec : NsRec} (hrec : NsRecOK CacheCleanNeg (fun _ => True) rec) :
+    ∀ (zs : List Name) (depth : Nat) (pool : Pool) (st : St), CacheCleanNeg st →
+      ∀ e, (nsLoop cfg net rec zs depth pool st).2 = .error e →
+        ∀ x ∈ errRecords e, Prov (nsLoop cfg net rec zs depth pool st).1 x := by
+  intro zs
+  induction zs with
+  | nil => intro depth pool st _ e he; simp only [nsLoop] at he; cases he
+  | cons z zs ih =>
+    intro depth pool st h e he
+    have hs := nsStep_stable (cacheCleanNeg_stable cfg net).toStableNs hrec z zs depth pool trivial
+      trivial st h
+    unfold nsLoop at he ⊢
+    split at he
+    · rename_i st1 e1 heq
+      cases he
+      exact nsStep_err rec z depth pool st h st1 e heq
+    · rename_i st1 d1 p1 heq
+      rw [heq] at hs
+      exact ih d1 p1 st1 hs.1 e he
+
+theorem nsPoolForName_err (n : Name) (d : Nat) (st : St) (h : CacheCleanNeg st) (e : Err)
+    (he : (nsPoolForName cfg net n d st).2 = .error e) :
+    ∀ x ∈ errRecords e, Prov (nsPoolForName cfg net n d st).1 x :=
+  nsLoop_err (nsPoolFuel_stable (cacheCleanNeg_stable cfg net).toStableNs _) _ _ _ _ h e he
+
+theorem answerQuery_err (q : Query) (pool : Pool) (st : St) (h : CacheCleanNeg st) (e : Err)
+    (he : (answerQuery cfg net q pool st).2 = .error e) :
+    ∀ x ∈ errRecords e, Prov (answerQuery cfg net q pool st).1 x := by
+  unfold answerQuery at he ⊢
+  split at he
+  · rename_i e0 hg
+    cases he
+    exact provNeg_of_clean h hg
+  · split at he
+    · cases he
+    · rename_i haa
+      simp only [haa]
+      exact lookup_err_prov _ _ _ _ e he
+  · exact lookup_err_prov _ _ _ _ e he
+
+def ResErr (rec : ResRec) : Prop :=
+  ResRecOK CacheCleanNeg rec ∧
+    ∀ q d st, CacheCleanNeg st → ∀ e, (rec q d st).2 = .error e →
+      ∀ x ∈ errRecords e, Prov (rec q d st).1 x
+
+theorem chaseLoop_err {rec : ResRec} (hrec : ResErr rec) (resp : Response) (qtype depth : Nat) :
+    ∀ (rs chain : List Record) (st : St), CacheCleanNeg st →
+      ∀ e, (chaseLoop rec resp qtype depth rs chain st).2 = .error e →
+        ∀ x ∈ errRecords e, Prov (chaseLoop rec resp qtype depth rs chain st).1 x := by
+  intro rs
+  induction rs with
+  | nil => intro chain st _ e he; simp only [chaseLoop] at he; cases he
+  | cons r rs ih =>
+    intro chain st h e he
+    unfold chaseLoop at he ⊢
+    split at he
+    · exact ih chain st h e he
+    · rename_i target _
+      split at he
+      · rename_i hany
+        simp only [hany, ↓reduceIte]
+        exact ih chain st h e he
+      · rename_i hany
+        simp only [hany]
+        dsimp only at he ⊢
+        split at he
+        · rename_i hgt
+          simp only [hgt, ↓reduceIte]
+          cases he; intro x hx; simp [errRecords] at hx
+        · rename_i hgt
+          simp only [hgt, ↓reduceIte]
+          have hst : CacheCleanNeg { st with cnames := st.cnames + 1 } := h
+          have hcl := hrec.1 ⟨target, qtype⟩ depth _ hst
+          have her := hrec.2 ⟨target, qtype⟩ depth _ hst
+          split at he
+          · rename_i st1 e1 heq
+            rw [heq] at her
+            cases he
+            exact her e rfl
+          · rename_i st1 r' heq
+            rw [heq] at hcl
+            exact ih _ st1 hcl e he
+
+theorem resolveCnames_err {rec : ResRec} (hrec : ResErr rec) (resp : Response) (q : Query)
+    (depth : Nat) (st : St) (h : CacheCleanNeg st) (e : Err)
+    (he : (resolveCnames cfg rec resp q depth st).2 = .error e) :
+    ∀ x ∈ errRecords e, Prov (resolveCnames cfg rec resp q depth st).1 x := by
+  unfold resolveCnames at he ⊢
+  split at he
+  · cases he
+  · rename_i hq
+    simp only [hq]
+    split at he
+    · cases he
+    · rename_i hc
+      simp only [hc]
+      dsimp only at he ⊢
+      split at he
+      · cases he; intro x hx; exact absurd hx (no_records_limit x)
+      · rename_i hlim
+        simp only [hlim]
+        have hc := chaseLoop_err hrec resp q.qtype (depth + 1) resp.all [] st h
+        split at he
+        · rename_i st1 e1 heq
+          rw [heq] at hc
+          cases he
+          exact hc e rfl
+        · cases he
+
+theorem resolveMiss_err {rec : ResRec} (hrec : ResErr rec) (q : Query) (depth : Nat) (st : St)
+    (h : CacheCleanNeg st) (e : Err) (he : (resolveMiss cfg net rec q depth st).2 = .error e) :
+    ∀ x ∈ errRecords e, Prov (resolveMiss cfg net rec q depth st).1 x := by
+  unfold resolveMiss at he ⊢
+  dsimp only at he ⊢
+  have hn := nsPoolForName_stable (cacheCleanNeg_stable cfg net).toStableNs
+    (if q.qtype == T_DS then base q.name else q.name) depth st h
+  have hne := nsPoolForName_err (cfg := cfg) (net := net)
+    (if q.qtype == T_DS then base q.name else q.name) depth st h
+  split at he
+  · rename_i st1 e1 heq
+    rw [heq] at hne
+    split at he
+    · rename_i hnx
+      simp only [hnx, ↓reduceIte]
+      cases he; exact hne e rfl
+    · cases he; intro x hx; simp [errRecords] at hx
+  · rename_i st1 d1 pool heq
+    rw [heq] at hn
+    have ha := answerQuery_stable (cacheCleanNeg_stable cfg net).toStableNs q pool trivial st1 hn.1
+    have hae := answerQuery_err (cfg := cfg) (net := net) q pool st1 hn.1
+    split at he
+    · rename_i st2 e2 heq2
+      rw [heq2] at hae
+      cases he
+      exact hae e rfl
+    · rename_i st2 resp heq2
+      rw [heq2] at ha
+      exact resolveCnames_err hrec resp q d1 st2 ha e he
+
+theorem resolveFuel_err : ∀ f, ResErr (resolveFuel cfg net f) := by
+  intro f
+  induction f with
+  | zero =>
+    refine ⟨resolveFuel_stable (cacheCleanNeg_stable cfg net) 0, ?_⟩
+    intro q d st _ e he
+    simp only [resolveFuel] at he
+    cases he
+    intro x hx; simp [errRecords] at hx
+  | succ f ih =>
+    refine ⟨resolveFuel_stable (cacheCleanNeg_stable cfg net) _, ?_⟩
+    intro q d st h e he
+    unfold resolveFuel at he ⊢
+    split at he
+    · rename_i e0 hg
+      cases he
+      exact provNeg_of_clean h hg
+    · rename_i r0 hg
+      split at he
+      · rename_i haa
+        simp only [haa, ↓reduceIte]
+        exact resolveCnames_err ih r0 q d st h e he
+      · rename_i haa
+        simp only [haa]
+        exact resolveMiss_err ih q d st h e he
+    · exact resolveMiss_err ih q d st h e he
+
+/-- **`returned_error_in_bailiwick`**: every record carried by an error `Recursor::resolve`
+returns (the SOA / authority records of `RecursorError::Negative`, the NS + glue of `ForwardNS`) —
+from the network or from the cache — passed the bailiwick rule of a recorded `lookup` call.  For
+every network and every starting cache whose negative entries are clean. -/
+theorem returned_error_in_bailiwick (cfg : Config) (net : Net) (q : Query) (st : St)
+    (h : CacheCleanNeg st) (e : Err) (he : (resolve cfg net q st).2 = .error e) :
+    ∀ x ∈ errRecords e, Prov (resolve cfg net q st).1 x := by
+  unfold resolve at he ⊢
+  split at he
+  · cases he; intro x hx; simp [errRecords] at hx
+  · rename_i hf
+    simp only [hf]
+    exact (resolveFuel_err (cfg := cfg) (net := net) _).2 q 0 { st with cnames := 0 } h e he
+
+end returnedErr
+
 /-! non-vacuity of the composite statements: the empty state satisfies every invariant -/
 example (cfg : Config) (net : Net) (q : Query) :=
   cached_in_pool_bailiwick cfg net q St.empty cacheClean_empty askedSound_empty
@@ -3104,5 +3471,7 @@ example (cfg : Config) (net : Net) (q : Query) :=
   answers_allowed cfg net q St.empty (cacheAns_empty cfg)
 example (cfg : Config) (net : Net) (q : Query) :=
   ns_addrs_allowed cfg net q St.empty (addrInv_empty cfg)
+example (cfg : Config) (net : Net) (q : Query) :=
+  returned_error_in_bailiwick cfg net q St.empty cacheCleanNeg_empty
 
 end HickoryVerif.C19
